@@ -127,6 +127,8 @@ def record(ctx, src, kw, ml, thresh, cls, v):
 
 def run_shard(ctx):
     import os
+    from vlib import docprop
+    docprop.run_source('')     # scratch files for \\LTinput & Co.
     os.chdir(sut.scratch_dir())
     rnd = random.Random(ctx.shard_seed)
     quick = ctx.tier == 'quick'
